@@ -39,6 +39,7 @@ func main() {
 	explain := flag.String("explain", "", "re-derive the finding recorded in the given violation file on the current tree")
 	list := flag.Bool("list", false, "list properties and rules")
 	manifest := flag.Bool("manifest", false, "print MANIFEST.json for the claimed properties")
+	emitKnown := flag.Bool("emit-known", false, "triage aid: print a known_findings.jsonl candidate line for every unlisted violation")
 	noKnown := flag.Bool("no-known", false, "debug: ignore known_findings.jsonl")
 	flag.Parse()
 
@@ -146,11 +147,19 @@ func main() {
 	if *all {
 		ids = rules.PropIDs()
 	}
+	report.EmitKnown = *emitKnown
 	exit := 0
 	for _, id := range ids {
 		p := rules.GetProp(id)
 		if p == nil {
 			fmt.Fprintf(os.Stderr, "svcheck: unknown property %q\n", id)
+			os.Exit(2)
+		}
+		if len(p.Rules) == 0 {
+			if *all {
+				continue
+			}
+			fmt.Fprintf(os.Stderr, "svcheck: property %s is not claimed (see MANIFEST.json not_applicable)\n", id)
 			os.Exit(2)
 		}
 		t0 := time.Now()
